@@ -46,7 +46,8 @@ def run_history(backend, n0, segments):
     eng = sf.Engine(backend, backend_options=kw)
     alive = list(range(n0))
     created = n0
-    amps = {k: 0.0 for k in range(n0)}
+    amps = {k: 0.0 for k in range(n0)}      # x-displacement (in units of alpha) of every mode ever created
+    sq = {k: 0.0 for k in range(n0)}        # its squeezing: <n> = sinh(r)^2 + amp^2 (all phases 0)
     prog = None
     progs = []
     for si, seg in enumerate(segments):
@@ -58,6 +59,7 @@ def run_history(backend, n0, segments):
                 for k in range(n0):
                     ops.Coherent(amp(k)) | regs[k]
                     amps[k] = amp(k)
+                    sq[k] = 0.0
             for sym in seg:
                 if sym in ("N1", "N2"):
                     cnt = 1 if sym == "N1" else 2
@@ -72,6 +74,7 @@ def run_history(backend, n0, segments):
                         alive.append(r.ind)
                         ops.Coherent(amp(r.ind)) | r
                         amps[r.ind] = amp(r.ind)
+                        sq[r.ind] = 0.0
                     created += cnt
                 elif sym in ("D0", "D1", "Dlast"):
                     if not alive:
@@ -92,7 +95,16 @@ def run_history(backend, n0, segments):
                     pos = 0 if sym == "G0" else 1
                     if pos >= len(alive):
                         continue
-                    ops.Rgate(0.37) | regs[alive[pos]]
+                    # a gate that changes the data of exactly the addressed mode: displacement on position 0, squeezing
+                    # (once per mode, then displacement) on position 1
+                    k = alive[pos]
+                    if sym == "G1" and sq[k] == 0.0:
+                        ops.Sgate(0.3) | regs[k]
+                        amps[k] *= np.exp(-0.3)
+                        sq[k] = 0.3
+                    else:
+                        ops.Dgate(0.1) | regs[k]
+                        amps[k] += 0.1
         # the parents' registers are not affected by building the child
         for p, reg in snapshot_prev:
             if [r.ind for r in p.register] != reg:
@@ -119,8 +131,9 @@ def run_history(backend, n0, segments):
                 return f"{backend} {segments}: after segment {si} state.mode_names = {names}, expected {[f'q[{k}]' for k in alive]}"
             for j, k in enumerate(alive):
                 mp = st.mean_photon(j)[0]
-                if abs(mp - amps[k] ** 2) > (2e-2 if backend == "fock" else 1e-8):
-                    return f"{backend} {segments}: after segment {si} returned mode {j} (labelled q[{k}]) has mean photon number {mp:.4f}, its own data would give {amps[k] ** 2:.4f}"
+                exp_n = amps[k] ** 2 + np.sinh(sq[k]) ** 2
+                if abs(mp - exp_n) > (3e-2 if backend == "fock" else 1e-8):
+                    return f"{backend} {segments}: after segment {si} returned mode {j} (labelled q[{k}]) has mean photon number {mp:.4f}, its own data would give {exp_n:.4f}"
     return None
 
 
